@@ -409,7 +409,7 @@ def model_st(min_recipes=2, max_recipes=7, richness=1, multi=True, dense=False):
 
 EDIT_KINDS = ["inc_mod", "inc_toggle", "frag", "frag", "move_frag", "var_value", "var_value", "varlist", "varlist", "dep_add", "dep_remove",
               "dep_param", "dep_swap", "provide_var", "tool_attr", "tool_use", "file_mod", "file_add", "file_del",
-              "define", "default_env", "class_frag", "provide_deps", "flag", "revert"]
+              "define", "default_env", "class_frag", "provide_deps", "flag", "revert", "variant"]
 
 def _bodies(model):
     """[(label, body, recipe_index)] of all recipe-level bodies (multiPackage sub bodies included)"""
@@ -511,6 +511,14 @@ def apply_edit(model, edit, history):
         x = deps.pop(b % len(deps))
         if x["name"] in body.get("provideDeps", []): body["provideDeps"].remove(x["name"])
         return m, "%s remove dep %s" % (lab, x["name"])
+    if kind == "variant":
+        # change the value a consumer passes to a dependency: one more / one less / another variant of that recipe
+        cands = [(l, x) for (l, bd, _) in bodies for x in bd.get("depends", []) if x.get("env")]
+        if not cands: return m, "noop"
+        l, x = cands[a % len(cands)]
+        var = sorted(x["env"])[b % len(x["env"])]
+        x["env"][var] = ["a", "b", "c", "d", "e", "x", "0"][c % 7]
+        return m, "%s passes %s=%s to %s" % (l, var, x["env"][var], x["name"])
     if kind == "dep_param":
         deps = body.get("depends", [])
         if not deps: return m, "noop"
@@ -717,5 +725,54 @@ def add_toolchains(model, variant, base_fid=800):
     root = m["recipes"][0]["body"]
     have = {d["name"] for d in root["depends"]}
     root["depends"] = [d for d in root["depends"]] + [dep("tcA", ["tools"], True)] + [dep(n, ["result"]) for n in order if n not in have]
+    m["nextfid"] = max(m.get("nextfid", 0), base_fid + 10)
+    return m
+
+
+def _plain_body(**kw):
+    b = {"root": False, "inherit": [], "depends": [], "environment": {}, "privateEnvironment": {},
+         "metaEnvironment": {}, "provideVars": {}, "provideDeps": [], "provideTools": {}, "checkoutDeterministic": False,
+         "import": False, "shared": False, "relocatable": None, "tooldirs": False, "fp": False,
+         "steps": {"checkout": _empty_step(), "build": _empty_step(), "package": _empty_step()}}
+    b.update(kw)
+    return b
+
+def _dep(name, use=None, env=None):
+    return {"name": name, "use": use, "forward": False, "env": dict(env or {}), "if": None, "checkoutDep": False, "tools": None}
+
+def add_variants(model, n, base_fid=700):
+    """one recipe (vl, consumes V0 in its build step) in n variants: consumers vc0..vc<n-1> pass different values of V0;
+    the root depends on all consumers.  Later 'dep_param' edits of the consumers add, remove and re-number variants."""
+    m = copy.deepcopy(model)
+    vals = ["a", "b", "c", "d", "e"]
+    lib = _plain_body()
+    lib["steps"]["build"]["script"] = base_fid
+    lib["steps"]["build"]["vars"] = ["V0"]
+    lib["steps"]["package"]["script"] = base_fid + 1
+    cons = []
+    for i in range(n):
+        c = _plain_body(depends=[_dep("vl", ["result"], {"V0": vals[i % len(vals)]})])
+        c["steps"]["build"]["script"] = base_fid + 2 + 2 * i
+        c["steps"]["package"]["script"] = base_fid + 3 + 2 * i
+        cons.append({"name": "vc%d" % i, "body": c, "multi": None})
+    m["recipes"] += cons + [{"name": "vl", "body": lib, "multi": None}]
+    root = m["recipes"][0]["body"]
+    have = {d["name"] for d in root["depends"]}
+    root["depends"] += [_dep("vc%d" % i, ["result"]) for i in range(n) if "vc%d" % i not in have]
+    m["nextfid"] = max(m.get("nextfid", 0), base_fid + 20)
+    return m
+
+def add_clones(model, n=2, base_fid=760):
+    """identical packages from different recipes: recipes cl0..cl<n-1> with the very same steps (same fragments, no
+    sources); the root depends on all of them.  Their steps have equal Variant-Ids."""
+    m = copy.deepcopy(model)
+    for i in range(n):
+        b = _plain_body()
+        b["steps"]["build"]["script"] = base_fid
+        b["steps"]["package"]["script"] = base_fid + 1
+        m["recipes"].append({"name": "cl%d" % i, "body": b, "multi": None})
+    root = m["recipes"][0]["body"]
+    have = {d["name"] for d in root["depends"]}
+    root["depends"] += [_dep("cl%d" % i, ["result"]) for i in range(n) if "cl%d" % i not in have]
     m["nextfid"] = max(m.get("nextfid", 0), base_fid + 10)
     return m
